@@ -379,9 +379,11 @@ def run_e2e(ctx: Ctx, cases, n_model):
             ctx.disagree("e2e-model-identities", c, "identities proved in Props", f"mid={mo['mid']} csum={mo['csum']}")
 
 
-def run_variants(ctx: Ctx, cases):
-    """several parameter variants in one model object: every variant against the joint Gaussian of ITS parameters"""
-    for c in cases:
+def run_variants(ctx: Ctx, cases, n_model=0):
+    """several parameter variants in one model object: every variant against the joint Gaussian of ITS parameters; the first
+    `n_model` cases also go through the Lean model's variant loop (`kfv` = `filterVariants`: per-variant run + own variance scale)"""
+    lines, keep = [], []
+    for ci, c in enumerate(cases):
         ctx.evaluations += 1
         nv = len(c["mcs"])
         cvs = ks.variant_subcases(c)
@@ -401,6 +403,50 @@ def run_variants(ctx: Ctx, cases):
         for f in ctx.failures[before:]:
             if f["case"].get("stream") == "e2e":
                 f["case"] = {"stream": "variants", "case": c}; f["site"] = f["site"].replace("e2e-", "variants-")
+        if ci < n_model:
+            try:
+                mvs = list(m.iter_variants())
+                parts, maps = [], []
+                for v in range(nv):
+                    lc, mp = ks.lean_case_of_e2e(cvs[v], mvs[v])
+                    if lc["xi"] is not None:
+                        raise ValueError("unit root")
+                    parts.append(" ".join(ks.encode(lc).split()[3:])); maps.append((lc, mp))
+                lines.append(f"kfv {1 if c.get('rescale') else 0} {nv} " + " ".join(parts))
+                keep.append((c, cvs, maps, span, out, info))
+            except Exception as e:
+                ctx.count("variants-model:not_encoded")
+    if not lines:
+        return
+    replies = ctx.model("C03", lines)
+    if replies is None:
+        return
+    for (c, cvs, maps, span, out, info), r in zip(keep, replies):
+        ctx.streams_compared["variants-model"] = ctx.streams_compared.get("variants-model", 0) + 1
+        if not r.startswith("ok "):
+            if r == "err:singular" or r == "err:zeroScale":
+                ctx.count("variants-model:" + r)
+            else:
+                ctx.disagree("variants-model", {"stream": "variants", "case": c}, "ok", r[:100])
+            continue
+        tk = ks._Tok(r); tk.word()
+        nv = int(tk.word()); bad = []
+        for v in range(nv):
+            vs = float(tk.rat()); nper = int(tk.word())
+            lc, mp = maps[v]
+            if not ks.close([info[v]["var_scale"]], [vs]): bad.append(("var_scale", v))
+            U = mp["Ua_sel"]
+            for t in range(nper):
+                for step in ("predict", "update", "smooth"):
+                    Qs = tk.mat()
+                    var = np.maximum(np.diag(U @ Qs @ U.T), 0.0)
+                    for nm, want in zip(mp["x_names"], var):
+                        key = ks.var_key(nm, cvs[v]["mc"]["logx"][int(nm[1:])])
+                        a = np.array(out[step + "_std"][key].get_data(span), dtype=float)
+                        got = a.reshape(a.shape[0], -1)[t, v] ** 2
+                        if not ks.close([got], [want], 1e-7): bad.append((step, "var", nm, t, v))
+        if bad:
+            ctx.disagree("variants-model", {"stream": "variants", "case": c}, f"reported variances differ at {bad[:6]}", "filterVariants")
 
 
 def run_callseq(ctx: Ctx, cases):
@@ -564,7 +610,7 @@ def run(ctx: Ctx):
     run_e2e(ctx, ucases, ctx.n(4, 30))
     run_config(ctx, cases[:ctx.n(4, 25)] + ucases[:ctx.n(6, 40)])
     rng = ctx.rng.fork("variants")
-    run_variants(ctx, [ks.gen_variant_case(rng.fork(i)) for i in range(ctx.n(14, 150))])
+    run_variants(ctx, [ks.gen_variant_case(rng.fork(i)) for i in range(ctx.n(14, 150))], ctx.n(5, 30))
     rng = ctx.rng.fork("noncontiguous")
     ncases = [ks.gen_e2e_case(rng.fork(i), 9 if ctx.quick else 12, noncontiguous=True) for i in range(ctx.n(14, 200))]
     run_e2e(ctx, ncases, ctx.n(3, 20))
